@@ -10,6 +10,28 @@ func seqJob(p seqParams, depth, shards, budget int, need ...string) *Job {
 	return &Job{Scenario: "cache.seq", Params: js(p), Depth: depth, Shards: shards, BudgetS: budget, Need: need}
 }
 
+// wheelAliasJobs: deadlines one full wheel turn ahead that share a bucket with the current tick (level 0: 64 ticks,
+// level 1: 64*64 ticks), written late in a tick; the sweep of that bucket must re-file them, not fire them.
+func wheelAliasJobs(kinds []string, thorough bool) []*Job {
+	var jobs []*Job
+	for _, origin := range []int64{1<<30 - 1, 1<<40 + tickNs - 7} {
+		for _, kind := range []string{"writing", "custom"} {
+			cfg := CacheCfg{Expiry: kind, TTL: 64*tickNs - 2, ClockStart: origin}
+			a := []string{
+				fmt.Sprintf("set 1 1 ttl=%d", 64*tickNs-2), fmt.Sprintf("set 1 1 ttl=%d", 63*tickNs+tickNs/2), fmt.Sprintf("set 2 1 ttl=%d", 64*64*tickNs-2),
+				fmt.Sprintf("set 2 1 ttl=%d", 64*tickNs), "get 1", "adv 1", "adv 8", fmt.Sprintf("adv %d", tickNs), fmt.Sprintf("adv %d", 2*tickNs),
+				fmt.Sprintf("adv %d", 63*tickNs), fmt.Sprintf("adv %d", 64*tickNs), "cleanup",
+			}
+			depth := 5
+			if thorough {
+				depth = 6
+			}
+			jobs = append(jobs, seqJob(seqParams{Cfg: cfg, Alphabet: a, Kinds: kinds}, depth, 4, 60, "cleanups-with-expiry"))
+		}
+	}
+	return jobs
+}
+
 func init() {
 	// ---- C03: every public operation on an expired-but-unswept key ----
 	plans["C03"] = func(thorough bool) []*Job {
@@ -109,7 +131,9 @@ func init() {
 			return jobs
 		}
 	}
-	plans["C07"] = c07([]string{"unjustified-overflow", "untruthful-expiration", "overflow-without-bound", "zero-weight-evicted", "unexpected-removal", "missing-entry"})
+	c07kinds := []string{"unjustified-overflow", "untruthful-expiration", "overflow-without-bound", "zero-weight-evicted", "unexpected-removal", "missing-entry"}
+	c07base := c07(c07kinds)
+	plans["C07"] = func(thorough bool) []*Job { return append(c07base(thorough), wheelAliasJobs(c07kinds, thorough)...) }
 	c04seq := c07([]string{"bound-exceeded", "zero-weight-evicted"})
 	c04conc := plans["C04"]
 	plans["C04"] = func(thorough bool) []*Job {
